@@ -540,41 +540,46 @@ structure ClipPt (K : Type) where
   p1 : V2 K
   p2 : V2 K
 
+/-- the lower end `ca` of the common range, for segments already oriented by increasing tangent coordinate
+(`r10 ≤ r11` are the coordinates of `s10, s11`; `r20 ≤ r21` those of `s20, s21`) -/
+def clipLo (r10 r11 r20 r21 : K) (s10 s11 s20 s21 : V2 K) : ClipPt K :=
+  if r10 < r20 then
+    let bc := (r20 - r10) * inv0 (r11 - r10)
+    ⟨s10.add ((s11.sub s10).smul bc), s20⟩
+  else
+    let bc := (r10 - r20) * inv0 (r21 - r20)
+    ⟨s10, s20.add ((s21.sub s20).smul bc)⟩
+
+/-- the upper end `cb` of the common range -/
+def clipHi (r10 r11 r20 r21 : K) (s10 s11 s20 s21 : V2 K) : ClipPt K :=
+  if r21 < r11 then
+    let bc := (r21 - r10) * inv0 (r11 - r10)
+    ⟨s10.add ((s11.sub s10).smul bc), s21⟩
+  else
+    let bc := (r11 - r20) * inv0 (r21 - r20)
+    ⟨s11, s20.add ((s21.sub s20).smul bc)⟩
+
+/-- the part of `clip_segment_segment_with_normal` after the two `if range[1] < range[0] { swap }` -/
+def clipOrdered (r10 r11 r20 r21 : K) (s10 s11 s20 s21 : V2 K) : Option (ClipPt K × ClipPt K) :=
+  -- `if range2[0] > range1[1] || range1[0] > range2[1] { return None }`
+  if r11 < r20 ∨ r21 < r10 then none
+  else some (clipLo r10 r11 r20 r21 s10 s11 s20 s21, clipHi r10 r11 r20 r21 s10 s11 s20 s21)
+
 /-- `clip_segment_segment_with_normal(seg1, seg2, normal)` (2-D): both segments are projected on the tangent
-`(-n.y, n.x)`, each is oriented by increasing tangent coordinate, and the two ends of the common range are
-returned as point pairs. -/
+`(-n.y, n.x)`, each is oriented by increasing tangent coordinate (the two swaps), and the two ends of the common
+range are returned as point pairs. -/
 def clipSegSegWithNormal (a1 b1 a2 b2 n : V2 K) : Option (ClipPt K × ClipPt K) :=
   let tangent : V2 K := ⟨-n.y, n.x⟩
   let u10 := a1.dot tangent
   let u11 := b1.dot tangent
   let u20 := a2.dot tangent
   let u21 := b2.dot tangent
-  -- `if range1[1] < range1[0] { swap }`
-  let r10 := if u11 < u10 then u11 else u10
-  let r11 := if u11 < u10 then u10 else u11
-  let s10 := if u11 < u10 then b1 else a1
-  let s11 := if u11 < u10 then a1 else b1
-  let r20 := if u21 < u20 then u21 else u20
-  let r21 := if u21 < u20 then u20 else u21
-  let s20 := if u21 < u20 then b2 else a2
-  let s21 := if u21 < u20 then a2 else b2
-  if r11 < r20 ∨ r21 < r10 then none
+  if u11 < u10 then
+    if u21 < u20 then clipOrdered u11 u10 u21 u20 b1 a1 b2 a2
+    else clipOrdered u11 u10 u20 u21 b1 a1 a2 b2
   else
-    let ca : ClipPt K :=
-      if r10 < r20 then
-        let bc := (r20 - r10) * inv0 (r11 - r10)
-        ⟨s10.add ((s11.sub s10).smul bc), s20⟩
-      else
-        let bc := (r10 - r20) * inv0 (r21 - r20)
-        ⟨s10, s20.add ((s21.sub s20).smul bc)⟩
-    let cb : ClipPt K :=
-      if r21 < r11 then
-        let bc := (r21 - r10) * inv0 (r11 - r10)
-        ⟨s10.add ((s11.sub s10).smul bc), s21⟩
-      else
-        let bc := (r11 - r20) * inv0 (r21 - r20)
-        ⟨s11, s20.add ((s21.sub s20).smul bc)⟩
-    some (ca, cb)
+    if u21 < u20 then clipOrdered u10 u11 u21 u20 a1 b1 b2 a2
+    else clipOrdered u10 u11 u20 u21 a1 b1 a2 b2
 
 /-- the raw second contact (before the radii are applied): clip point pair and its distance along the normal.
 `(clip_a.0 - local_p1).norm_squared() > EPSILON * 100` chooses `clip_a`, else `clip_b`; **each with the distance
